@@ -231,6 +231,21 @@ impl<C: Suite> Model for M03<C> {
                     o.expect(&format!("C03:zkcrypto-vector:{}", g), pkb == v, "i*G vector", "differs");
                     o.outcome(if pkb == v { "small-key:vector-equal" } else { "small-key:vector-differs" });
                 }
+                // the pairing itself: bytes of e(H(m), pk) equal the reference's (they key the time lock derivation)
+                if matches!(src, KeySrc::Alpha(_) | KeySrc::KeyGen(_)) {
+                    let h = <C as HashToPoint>::hash_to_point(b"pairing input", <C as BlsSignatureBasic>::DST);
+                    let gt = <C as Pairing>::pairing(&[(h, sk.public_key().0)]);
+                    let rh = <C::R as RefSuite>::hash_to_sig(b"pairing input", <C::R as RefSuite>::DST_NUL);
+                    let rgt = <C::R as RefSuite>::pairing_product(&[(rh, rf::sk_to_pk::<C::R>(&rsk))]);
+                    o.expect(&format!("C03:pairing-bytes:{}", g), gt.to_bytes().as_ref() == rgt.to_bytes().as_ref(), "equal to the reference pairing", "differs");
+                    // a product with the point at infinity in one pair equals the product without that pair
+                    let gt2 = <C as Pairing>::pairing(&[(h, sk.public_key().0), (SgP::<C>::identity(), sk.public_key().0), (h, PkP::<C>::identity())]);
+                    o.expect(&format!("C03:pairing-with-identity-pairs:{}", g), gt2 == gt, "unchanged by pairs containing the identity", "differs");
+                    o.calls(2);
+                }
+                let arr: [u8; 32] = (&sk).into();
+                let arr2: [u8; 32] = sk.clone().into();
+                o.expect(&format!("C03:secret-key-array-conversions:{}", g), arr == sk.to_be_bytes() && arr2 == arr, "big endian bytes", "differs");
                 // the other public routes to the same derivations agree with the reference too
                 o.expect(&format!("C03:public-key-from-impl:{}", g), Vec::<u8>::from(&PublicKey::<C>::from(&sk)) == rpk, "equal to reference SkToPk", "differs");
                 if let KeySrc::KeyGen(i) = src {
